@@ -258,6 +258,9 @@ func BadgerOptions(cfg *Config, dir, vdir string) badger.Options {
 		if cfg.EncRotS > 0 {
 			opt.EncryptionKeyRotationDuration = time.Duration(cfg.EncRotS) * time.Second
 		}
+		if cfg.EncRotMs > 0 {
+			opt.EncryptionKeyRotationDuration = time.Duration(cfg.EncRotMs) * time.Millisecond
+		}
 	}
 	opt.BlockCacheSize = 0
 	if cfg.BlockCache || cfg.Compression != 0 || cfg.EncKeyLen > 0 {
